@@ -321,6 +321,105 @@ theorem front_spec (cfg : Cfg) (s : Script) : FrontSpec cfg s (front cfg s) (fro
     · exact ⟨fun _ => by simp [Stack.content], rfl, rfl, Nat.le_refl _, Nat.le_refl _, rfl,
         by simp [Stack.poisoned], fun h => h⟩
 
+/-! ### the fuel given to the detection loops is enough -/
+
+theorem Script.readAt_fuel (s : Script) (now : Nat) (dl : Option Nat) (n : Nat) (hn : 0 < n)
+    (h : (s.readAt now dl n).err = .none) : (s.readAt now dl n).rest.fuel < s.fuel := by
+  unfold Script.readAt at h ⊢
+  cases hev : s.evs with
+  | nil =>
+    simp only [hev] at h ⊢
+    split at h
+    · simp at h
+    · cases hf : s.fin <;> simp [hf] at h
+  | cons e es =>
+    simp only [hev] at h ⊢
+    by_cases hh : deadlineHit dl (max now e.t) = true
+    · simp [hh] at h
+    · simp only [hh, Bool.false_eq_true, ↓reduceIte]
+      by_cases hl : e.data.length ≤ n
+      · simp only [hl, ↓reduceIte, Script.fuel, hev, List.map_cons, List.sum_cons]; omega
+      · simp only [hl, ↓reduceIte, Script.fuel, hev, List.map_cons, List.sum_cons, List.length_drop]; omega
+
+theorem Script.readAt_fuel_le (s : Script) (now : Nat) (dl : Option Nat) (n : Nat) :
+    (s.readAt now dl n).rest.fuel ≤ s.fuel := by
+  unfold Script.readAt
+  cases hev : s.evs with
+  | nil => simp only; split <;> simp [Script.fuel, hev]
+  | cons e es =>
+    simp only
+    split
+    · simp [Script.fuel, hev]
+    · split
+      · simp only [Script.fuel, hev, List.map_cons, List.sum_cons]; omega
+      · simp only [Script.fuel, hev, List.map_cons, List.sum_cons, List.length_drop]; omega
+
+/-- more fuel than `s.fuel - 1` never changes what `Peek` returns: the out-of-fuel branch is dead. -/
+theorem peekLoop_fuel_stable (dl : Option Nat) (need : Nat) :
+    ∀ (fuel : Nat) (s : Script) (now : Nat) (buf : Bytes), s.fuel ≤ fuel + 1 →
+      peekLoop dl need (fuel + 1) s now buf = peekLoop dl need fuel s now buf := by
+  intro fuel
+  induction fuel with
+  | zero => intro s now buf h; simp [Script.fuel] at h
+  | succ f ih =>
+    intro s now buf h
+    rw [peekLoop, peekLoop]
+    split
+    · rfl
+    · split
+      · rfl
+      · rename_i h1 h2
+        have hn : 0 < bufioSize - buf.length := by omega
+        cases he : (s.readAt now dl (bufioSize - buf.length)).err with
+        | none =>
+          simp only [he]
+          have := s.readAt_fuel now dl _ hn he
+          exact ih _ _ _ (by omega)
+        | eof => simp only [he]
+        | reset => simp only [he]
+        | timeout => simp only [he]
+
+theorem sniffLoop_fuel_stable (nm : List Nat) (dl : Nat) :
+    ∀ (fuel : Nat) (s : Script) (now : Nat) (buf : Bytes), s.fuel ≤ fuel + 1 →
+      sniffLoop nm dl (fuel + 1) s now buf = sniffLoop nm dl fuel s now buf := by
+  intro fuel
+  induction fuel with
+  | zero => intro s now buf h; simp [Script.fuel] at h
+  | succ f ih =>
+    intro s now buf h
+    rw [sniffLoop, sniffLoop]
+    split
+    · cases he : (s.readAt now (some dl) relayBuf).err with
+      | none =>
+        simp only [he]
+        have := s.readAt_fuel now (some dl) relayBuf (by decide) he
+        exact ih _ _ _ (by omega)
+      | eof => simp only [he]
+      | reset => simp only [he]
+      | timeout => simp only [he]
+    · rfl
+
+theorem peekLoop_fuel_le (dl : Option Nat) (need : Nat) :
+    ∀ (fuel : Nat) (s : Script) (now : Nat) (buf : Bytes),
+      (peekLoop dl need fuel s now buf).2.2.2.fuel ≤ s.fuel := by
+  intro fuel
+  induction fuel with
+  | zero => intro s now buf; simp [peekLoop]
+  | succ f ih =>
+    intro s now buf
+    rw [peekLoop]
+    split
+    · simp
+    · split
+      · simp
+      · cases he : (s.readAt now dl (bufioSize - buf.length)).err with
+        | none =>
+          simp only [he]
+          exact Nat.le_trans (ih _ _ _) (s.readAt_fuel_le _ _ _)
+        | eof => simp only [he]; exact s.readAt_fuel_le _ _ _
+        | reset => simp only [he]; exact s.readAt_fuel_le _ _ _
+        | timeout => simp only [he]; exact s.readAt_fuel_le _ _ _
+
 /-! ### deliveries -/
 
 /-- all bytes of a list of deliveries, in order -/
